@@ -32,6 +32,8 @@ var c09Producers = []struct{ Name, JS string }{
 	{"ineq-bound", `bs["?<m"] = 2;`},
 	{"computed", `bs.c = 4 / 2; bs.d = Math.floor(7 / 2); bs.xs2 = [0.5 + 0.5];`},
 	{"reset", `bs = {};`},
+	// a script that looks into what the engine recorded about a failure
+	{"read-last", `var lb = bs.lastBindings; bs.sawLast = lb ? (lb.n === undefined ? "no n" : lb.n) : "none"; bs.sawKeys = lb ? Object.keys(lb).sort().join(",") : "none"; bs.sawNode = (typeof bs.lastNode) + ":" + bs.lastNode;`},
 	// failures whose text is long and not ASCII: the text lands in the bindings ("error", "actionError")
 	{"throw-long-0", `throw Array(401).join("\u20ac");`},
 	{"throw-long-1", `throw "a" + Array(401).join("\u20ac");`},
